@@ -44,11 +44,12 @@ def nrows(layout):
     return sum(s["n"] for s in layout if s["traced"] or s["stats"])
 
 
-def make_cfg(layout_name, nchain, nproc, intr=None, nproc_none=False):
+def make_cfg(layout_name, nchain, nproc, intr=None, nproc_none=False, initfail=None):
     layout = LAYOUTS[layout_name]
     return {"layout": layout_name, "nchain": nchain, "nproc": nproc, "nrows": nrows(layout),
             "stages": copy.deepcopy(layout), "nproc_none": nproc_none,
-            "intr": intr or {"stage": 0, "chain": 0, "k": 0, "site": "none"}}
+            "intr": intr or {"stage": 0, "chain": 0, "k": 0, "site": "none"},
+            "initfail": initfail or {"stage": 0, "chain": 0}}
 
 
 def interrupts_of(layout_name, nchain):
@@ -85,6 +86,10 @@ def gen_configs(tier, seed, *, with_interrupts):
                         cfgs.append(make_cfg(name, nchain, nproc, it))
     if not with_interrupts:
         cfgs.append(make_cfg("warm+main", 2, 3, nproc_none=True))
+        # an adapter cannot be initialised for one chain (AdaptationError, documented as non-fatal)
+        for name, stage in (("warm+main", 1), ("windowed", 2), ("warm-only", 1), ("traced-warm+main", 1)):
+            for nchain, nproc, chain in ((2, 0, 1), (3, 0, 2), (3, 2, 3), (2, 2, 1)):
+                cfgs.append(make_cfg(name, nchain, nproc, initfail={"stage": stage, "chain": chain}))
     else:
         # process-group interrupts (chain = 0): every chain running at that point is interrupted
         for name, s_, k_, site in (("warm+main", 1, 2, "trans"), ("traced-warm+main", 1, 1, "trace"),
@@ -100,8 +105,9 @@ def consts_module(cfgs):
             "[n |-> %d, adapters |-> %s, traced |-> %s, stats |-> %s]" % (
                 s["n"], tlc.to_tla(set(s["adapters"])) if s["adapters"] else "{}",
                 tlc.to_tla(s["traced"]), tlc.to_tla(s["stats"])) for s in c["stages"]) + ">>"
-        return ("[nchain |-> %d, nproc |-> %d, nrows |-> %d, stages |-> %s, intr |-> %s]" % (
-            c["nchain"], c["nproc"], c["nrows"], stages, tlc.to_tla(c["intr"])))
+        return ("[nchain |-> %d, nproc |-> %d, nrows |-> %d, stages |-> %s, intr |-> %s, initfail |-> %s]" % (
+            c["nchain"], c["nproc"], c["nrows"], stages, tlc.to_tla(c["intr"]),
+            tlc.to_tla(c.get("initfail") or {"stage": 0, "chain": 0})))
 
     return ("---- MODULE SamplerConsts ----\nEXTENDS Integers, Sequences\nSCfgs == <<\n "
             + ",\n ".join(cfg_tla(c) for c in cfgs) + "\n>>\nSCfgSet == 1..Len(SCfgs)\n====\n")
@@ -173,6 +179,7 @@ def run_real(cfg, *, seed=1234, storage="mem", delays=None, event_dir=None, init
     P.PLAN["delays"] = delays or {}
     P.PLAN["event_dir"] = event_dir
     P.PLAN["signal_dir"] = signal_dir
+    P.PLAN["initfail"] = cfg.get("initfail") if (cfg.get("initfail") or {}).get("stage") else None
     P._FIRED[0] = False
     P._SEQ[0] = 0
     transitions = {"stamp": P.StageStamp(bounds), "probe": P.ProbeTransition()}
@@ -319,10 +326,21 @@ def judge(cfg, obs, terms, storage="mem", tag=""):
         exc = obs["exception"].split(":")[0]
         if intr:
             sig = f"C15:{mode.split('(')[0]}:exception-escapes:{exc}:stage-adapters={'+'.join(cfg['stages'][cfg['intr']['stage'] - 1]['adapters']) or 'none'}"
+        elif (cfg.get("initfail") or {}).get("stage"):
+            sig = f"C13:{mode.split('(')[0]}:exception-escapes:{exc}:after-adapter-init-failure"
         else:
             sig = f"C13:{mode.split('(')[0]}:exception-escapes:{exc}"
         viol.append((owner, sig, f"sample_chains raised {obs['exception']} (layout {lay}, {cfg['nchain']} chains, {mode}"
                      + (f", interrupt {cfg['intr']}" if intr else "") + ")"))
+        return viol, drift
+    if (cfg.get("initfail") or {}).get("stage"):
+        if obs["exception"] is None and terms:
+            exps = [spec_expectation(t) for t in terms.values()]
+            got = {"tr": [[row[:2] for row in ch] for ch in obs["tr"]], "sr": obs["sr"], "finals": obs["finals"]}
+            if not any(all(got[k] == e[k] for k in ("tr", "sr", "finals")) for e in exps):
+                viol.append(("C13", f"C13:{mode.split('(')[0]}:adapter-init-failure:outputs",
+                             f"after an adapter initialisation failure of chain {cfg['initfail']['chain']} in stage {cfg['initfail']['stage']} "
+                             f"the outputs of the remaining chains are not those of Sampler.tla ({lay}, {cfg['nchain']} chains, {mode})"))
         return viol, drift
     nchain, nr = cfg["nchain"], cfg["nrows"]
     total = sum(s["n"] for s in cfg["stages"])
